@@ -166,7 +166,15 @@ def check_result(case, root: dict, objective_value) -> list[str]:
         if not cands:
             probs.append("placement:no-matching-choose")
             continue
-        path, n = cands[0]
+        # several options of one task may start at the same time (different strategies): the placement stands for
+        # the option it matches best (duration, amount, partitions); it is judged against that one
+        def _fit(cand):
+            _p, m = cand
+            amount = sum(q for _pid, _t, q in pl["alloc"])
+            sp_ = set(sched_parts(case, m))
+            return (pl["end"] == m["start"] + m["dur"]) + (amount == m["n"]) + all(pid in sp_ for pid, _t, _q in pl["alloc"])
+
+        path, n = max(cands, key=_fit)   # max keeps the first of equally good candidates
         alloc = {}
         for pid, t, q in pl["alloc"]:
             if t != n["start"]:
